@@ -146,7 +146,7 @@ def run(ctx):
                 if v not in (None, 0):
                     return "D4: division by the non-zero constant %s" % v
         return None
-    sites = panics.analyse(ctx, bodies, "C13.D1.arithmetic", extra_rules=[sub_one, div_const], include_alloc=False, narrowing=True)
+    sites = panics.analyse(ctx, bodies, "C13.D1.arithmetic", extra_rules=[sub_one, div_const], include_alloc=False, narrowing=True, F=F)
     ctx.floor("C13.D1.arithmetic.sites", len(sites), 2)
 
     # D2 clamp
@@ -164,7 +164,29 @@ def run(ctx):
             p = v[0]
             if p["l"] in mdl or [e for e in p["p"] if e != "*"] == [st, md]:
                 sw = (i, v)
-    if ctx.check(sw is not None, "C13.D2.clamp", "next:no-max-test", "next() tests whether a maximum delay is configured", nx.span):
+    # equivalent idiom: max_duration.map_or(delay, |max| delay.min(max))
+    alt = None
+    if sw is None:
+        mdv = flow.derived(nx, mdl, calls=())
+        for c in nx.calls():
+            if strip_generics(c.callee) in ("core::option::Option::map_or", "core::option::Option::map_or_else") and op_local(c.args[0]) in mdv and len(c.args) == 3:
+                r = flow.root(nx, c.args[2])
+                if r[0] == "rv" and r[1]["k"] == "agg" and "closure" in r[1]:
+                    cb = F.bodies.get(r[1]["closure"])
+                    if cb is not None:
+                        ctx.touch(cb)
+                        mins = [x for x in cb.calls() if strip_generics(x.callee) in ("core::cmp::Ord::min", "core::cmp::Ord::clamp", "core::cmp::min")]
+                        # the closure returns min(captured delay, its parameter = the configured maximum)
+                        okc = len(mins) == 1 and mins[0].dest["l"] == 0 and any(flow.root(cb, a)[0] == "arg" and flow.root(cb, a)[1] == 2 for a in mins[0].args)
+                        if okc:
+                            alt = c
+    if alt is not None:
+        for ai, j, pl, rv, s in aggs:
+            dl = flow.root_local(nx, rv["ops"][dur])
+            av = flow.derived(nx, {alt.dest["l"]}, calls=())
+            ctx.check(op_local(rv["ops"][dur]) in av or dl in av, "C13.D2.clamp", "next:unclamped-path",
+                      "the yielded delay is max_duration.map_or(delay, |max| delay.min(max)): clamped whenever a maximum is configured", s["span"])
+    elif ctx.check(sw is not None, "C13.D2.clamp", "next:no-max-test", "next() tests whether a maximum delay is configured", nx.span):
         i, v = sw
         some_t = v[2].get("Some")
         if some_t is None:
